@@ -20,6 +20,7 @@ import (
 	"github.com/klauspost/cpuid/v2"
 
 	"verifharness/internal/core"
+	"verifharness/internal/ref/gf16"
 	"verifharness/internal/scen"
 )
 
@@ -122,6 +123,9 @@ func (c *c12) Cases(tier string, seed int64) []core.Case {
 		cse := core.MkCase("race-coder-many-shards", c12Params{Mode: "coder", D: 160, Lens: []int{2, 16, 18, 34, 62, 130}, Workers: []int{2, 8, 16, 64}, Procs: 8, Seed: r.Int63(), Repeats: 2, RaceMode: true})
 		cse.Race = true
 		cs = append(cs, cse)
+	}
+	for _, pr := range []int{1, 4, 16} {
+		cs = append(cs, core.MkCase(fmt.Sprintf("sparse-reconstruction-procs%d", pr), c12Params{Mode: "sparse", Procs: pr, Seed: r.Int63()}))
 	}
 	for i := 0; i < 4; i++ {
 		cse := core.MkCase(fmt.Sprintf("race-create-%d", i), c12Params{Mode: "create", Seed: r.Int63(), RaceMode: true, Dup: map[bool]string{true: "yes"}[i%2 == 0], BigFiles: i == 1})
@@ -361,6 +365,8 @@ func (c *c12) Run(cs core.Case) core.Result {
 		c12rec.perturb = false
 	}()
 	switch p.Mode {
+	case "sparse":
+		c.runSparse(r, p)
 	case "coder":
 		c.runCoder(r, p)
 	case "create":
@@ -383,6 +389,95 @@ func (c *c12) Run(cs core.Case) core.Result {
 	r.Count("hook_events", atomic.SwapInt64(&c12rec.events, 0))
 	r.Count("kernel_calls_observed", atomic.SwapInt64(&c12kernelCalls, 0))
 	return r.Done()
+}
+
+// runSparse: PAR2-Vandermonde geometries whose reconstruction matrix contains
+// zero coefficients. With recovery exponents 0 and e (e = 65535/q for a prime
+// factor q of 65535) and a missing shard b, every available shard j whose
+// constant satisfies (c_j/c_b)^e = 1 drops out of the other missing shard.
+// The shards are long enough for several workers; every goroutine count must
+// give the original bytes.
+func (c *c12) runSparse(r *core.R, p c12Params) {
+	old := runtime.GOMAXPROCS(p.Procs)
+	defer runtime.GOMAXPROCS(old)
+	rng := rand.New(rand.NewSource(p.Seed))
+	// index of the k-th valid exponent n of the constants 2^n
+	var ns []int
+	for n := 0; n < 65535 && len(ns) < 400; n++ {
+		if n%3 != 0 && n%5 != 0 && n%17 != 0 && n%257 != 0 {
+			ns = append(ns, n)
+		}
+	}
+	found := 0
+	for _, qe := range [][2]int{{17, 3855}, {3, 21845}, {5, 13107}, {257, 255}} {
+		q, e := qe[0], qe[1]
+		// b: a shard whose n is congruent to that of shard 0 (n=1) modulo q
+		b := -1
+		for i := 2; i < len(ns) && i < 300; i++ {
+			if (ns[i]-ns[0])%q == 0 {
+				b = i
+				break
+			}
+		}
+		if b < 0 {
+			continue
+		}
+		a := 1
+		d := b + 1 + rng.Intn(3)
+		for _, l := range []int{64, 100, 330, 2000} {
+			data := randShards(rng, d, l)
+			rows := map[int][]byte{}
+			for _, ee := range []int{0, e} {
+				row := make([]byte, l)
+				for j := 0; j < d; j++ {
+					f := refParityElem("vandermonde", d, ee, j)
+					for w := 0; w < l; w += 2 {
+						x := gf16.Mul(f, uint16(data[j][w])|uint16(data[j][w+1])<<8)
+						row[w] ^= byte(x)
+						row[w+1] ^= byte(x >> 8)
+					}
+				}
+				rows[ee] = row
+			}
+			for _, g := range []int{1, 2, 3, 8, 16} {
+				coder, err := rsec16.NewCoderPAR2Vandermonde(d, e+1, g)
+				if err != nil {
+					r.Violate("newcoder-error", "%v", err)
+					return
+				}
+				for rep := 0; rep < 3; rep++ {
+					in := make([][]byte, d)
+					for i := range in {
+						if i != a && i != b {
+							in[i] = append(make([]byte, 0, l), data[i]...)
+						}
+					}
+					parity := make([][]byte, e+1)
+					parity[0], parity[e] = rows[0], rows[e]
+					var rerr error
+					core.Note("C12 sparse reconstruction d=%d missing={%d,%d} exponents {0,%d} len=%d g=%d", d, a, b, e, l, g)
+					if pi := core.Protect(func() { rerr = coder.ReconstructData(in, parity) }); pi != nil {
+						r.Violate("reconstruct-panic|"+pi.Frame, "d=%d missing {%d,%d} exponents {0,%d} len=%d g=%d: %s", d, a, b, e, l, g, pi.Msg)
+						continue
+					}
+					if rerr != nil {
+						r.SetAdd("sparse_errors", rerr.Error())
+						continue
+					}
+					for i := range data {
+						if !bytes.Equal(in[i], data[i]) {
+							r.Violate("bytes-differ-from-single-thread", "ReconstructData d=%d missing {%d,%d} exponents {0,%d} len=%d g=%d GOMAXPROCS=%d: shard %d is not the original (byte %d)", d, a, b, e, l, g, p.Procs, i, firstDiff(in[i], data[i]))
+							break
+						}
+					}
+					r.Count("sparse_reconstructions", 1)
+				}
+				r.Key("sparse|q=%d|len=%d|g=%d|procs=%d", q, l, g, p.Procs)
+			}
+		}
+		found++
+	}
+	r.Sample(map[string]interface{}{"mode": "sparse", "geometries": found, "GOMAXPROCS": p.Procs})
 }
 
 func (c *c12) runCoder(r *core.R, p c12Params) {
